@@ -18,9 +18,9 @@ from dsim.c14 import launcher
 PROP = "C14"
 
 TIERS = {
-    "quick": {"targets": 320, "runs": 300, "ref_seeds": [0, 1, 20260924], "fresh_checks": 6, "redo": 8, "min_budget": 24,
+    "quick": {"targets": 320, "runs": 340, "ref_seeds": [0, 1, 20260924], "fresh_checks": 6, "redo": 8, "min_budget": 24,
               "chunk": 12, "budget_s": 420, "torchlib": False},
-    "thorough": {"targets": 1500, "runs": 5000, "ref_seeds": [0, 1, 2, 3, 7, 1234567, 20260924, 4294967295], "fresh_checks": 40,
+    "thorough": {"targets": 2600, "runs": 12000, "ref_seeds": [0, 1, 2, 3, 7, 1234567, 20260924, 4294967295], "fresh_checks": 40,
                  "redo": 250, "min_budget": 60, "chunk": 25, "budget_s": 3300, "torchlib": True, "per_family": 10},
 }
 GC_KNOBS = ["default", "default", "aggressive", "disabled", "collect_between"]
@@ -132,8 +132,35 @@ def gen_targets(seed: int, tier: dict, pools) -> list[dict]:
     return out
 
 
-def gen_runs(seed: int, tier: dict, targets: list[dict], repo: str) -> list[dict]:
+def _rule_bearing(op: dict) -> bool:
+    """Does the operation run shipped rewrite-rule singletons over the model?"""
+    if op["kind"] == "rewrite":
+        return not str(op.get("rules", "")).startswith("fusion:") or True
+    return op["kind"] == "optimize" and op.get("api") in ("proto", "ir", "ir_should_fold")
+
+
+def _pair_run(rng: Rng, pool: list[dict], failing: set, length: int) -> list[dict]:
+    """[A1, B1, A2, B2, ...]: every A fails part-way (it fails by itself, or gets an injected callee exception) and the
+    B right after it goes through the same singletons with other parameters and is checked."""
+    ops = []
+    natural = [t for t in pool if t["id"] in failing]
+    while len(ops) + 2 <= max(2, length):
+        if natural and rng.chance(0.4):
+            a = copy.deepcopy(rng.choice(natural))
+            if rng.chance(0.3):
+                a["fault"] = {"frac": rng.below(10**6) / 10**6}
+        else:
+            a = copy.deepcopy(rng.choice(pool))
+            a["fault"] = {"frac": rng.below(10**6) / 10**6}
+        others = [t for t in pool if jdump(t.get("model")) != jdump(a.get("model"))] or pool
+        b = copy.deepcopy(rng.choice(others))
+        ops += [a, b]
+    return ops
+
+
+def gen_runs(seed: int, tier: dict, targets: list[dict], repo: str, failing: set | None = None) -> list[dict]:
     runs = []
+    failing = failing or set()
     by_family: dict = collections.defaultdict(list)
     by_kind: dict = collections.defaultdict(list)
     by_obj: dict = collections.defaultdict(list)
@@ -145,6 +172,7 @@ def gen_runs(seed: int, tier: dict, targets: list[dict], repo: str) -> list[dict
     objs = sorted(k for k, v in by_obj.items() if len(v) >= 3 and k != "translate")
     kinds_all = [k for k in ("translate", "optimize", "rewrite", "convert") if by_kind[k]]
     gfams = [f for f in fams if f.startswith("gen:")]
+    custom_scripts = [t for t in by_kind["translate"] if "CUSTOM = Opset(" in t.get("src", "")]
     stateful = [k for k in objs if any(a in k for a in ('"fold_pass"', '"pass"', '"apply"'))]
     for r in range(tier["runs"]):
         rng = Rng(seed).sub("run", r)
@@ -168,6 +196,37 @@ def gen_runs(seed: int, tier: dict, targets: list[dict], repo: str) -> list[dict
         if template == "fail_then" and gfams and rng.chance(0.5):
             obj, focus = None, rng.choice(gfams)  # ... or one rule's parameter family through any entry point
         ops = []
+        # a fixed share of every batch walks the rule-parameter families and the stateful objects systematically
+        # (round-robin, not sampled), as fail-then pairs: this is where "state survives a failed operation" lives
+        if r % 5 == 0 and gfams:
+            fam = gfams[(r // 5) % len(gfams)]
+            pool = [t for t in by_family[fam] if _rule_bearing(t)]
+            if len(pool) >= 2:
+                template, env["template"] = "pairs_family", "pairs_family"
+                ops = _pair_run(rng, pool, failing, length)
+        elif r % 5 == 1 and stateful:
+            ob = stateful[(r // 5) % len(stateful)]
+            if len(by_obj[ob]) >= 2:
+                template, env["template"] = "pairs_object", "pairs_object"
+                ops = _pair_run(rng, by_obj[ob], failing, length)
+        elif r % 5 == 2 and len(custom_scripts) >= 2:
+            # scripts whose helpers live in the same custom opset domain at different versions (Opset singletons are
+            # process-wide), plus revisits of long-lived OnnxFunctions
+            template, env["template"] = "shared_opset_domain", "shared_opset_domain"
+            for j in range(max(2, length)):
+                op = copy.deepcopy(rng.choice(custom_scripts if rng.chance(0.8) else by_kind["translate"]))
+                if ops and rng.chance(0.2):
+                    op = copy.deepcopy(rng.choice(ops))
+                    op["reuse"] = rng.chance(0.5)
+                    op.pop("fault", None)
+                elif j < length - 1 and rng.chance(0.2):
+                    op["fault"] = {"frac": rng.below(10**6) / 10**6}
+                ops.append(op)
+        if ops:
+            env["skew"] = [rng.choice(SKEWS) for _ in ops]
+            runs.append({"kit": common.KIT_VERSION, "property": PROP, "seed": seed, "run": r, "env": env,
+                         "mode": "sequential", "ops": ops})
+            continue
         for j in range(length):
             if obj is not None and rng.chance(0.85):
                 op = copy.deepcopy(rng.choice(by_obj[obj]))
@@ -235,14 +294,16 @@ def reference_phase(targets: list[dict], tier: dict, pyc: str, repo: str, worker
             meta.append(h)
     outs = _par(specs, pyc, workers, 900, None)
     ref: dict = {h: {} for h in tier["ref_seeds"]}
+    spec_of: dict = {}
     errors = []
-    for h, o in zip(meta, outs):
+    for h, o, sp in zip(meta, outs, specs):
         if "error" in o:
             errors.append(f"reference process (hash seed {h}): {o['error'][:400]}")
             continue
         for rec in o["log"]:
             ref[h][rec["id"]] = rec
-    return ref, errors
+            spec_of[(h, rec["id"])] = sp
+    return ref, errors, spec_of
 
 
 def canon(rec: dict):
@@ -370,14 +431,19 @@ def replay_doc(doc: dict, pyc: str) -> tuple[bool, str]:
     cls = doc["expect"]["class"]
     repo = os.environ.get("VERIF_REPO", "/repo")
     if cls == "seed-dependent":
+        # exact replay: the two pristine reference processes of the check, re-executed spec for spec (an address-order
+        # dependence only reproduces when the whole heap history is the same), compared on the target operation
         res = []
-        for h in doc["hashseeds"]:
-            spec = {"mode": "sequential", "env": {"hashseed": h, "gc": "default", "repo": repo, "skew": [0], "aslr_off": True},
-                    "ops": [doc["op"]]}
-            o = launcher.launch(spec, pyc, 300)
+        for h, spec in zip(doc["hashseeds"], doc.get("ref_specs") or [None, None]):
+            if spec is None:
+                spec = {"mode": "sequential", "env": {"hashseed": h, "gc": "default", "repo": repo, "skew": [0], "aslr_off": True},
+                        "ops": [doc["op"]]}
+            spec["env"]["repo"] = repo
+            o = launcher.launch(spec, pyc, 900)
             if "error" in o:
                 return False, o["error"]
-            res.append(canon(o["log"][0]))
+            rec = next((r for r in o["log"] if r["id"] == doc["op"]["id"]), o["log"][0])
+            res.append(canon(rec))
         return len(set(res)) > 1, f"results under hash seeds {doc['hashseeds']}: {[r[1][:80] for r in res]}"
     if cls in ("globals-leak", "repeat-call-differs"):
         spec = doc["spec"]
@@ -394,13 +460,16 @@ def replay_doc(doc: dict, pyc: str) -> tuple[bool, str]:
     if "error" in o:
         return False, o["error"]
     last = o["log"][-1]
-    alone = {"mode": "sequential", "env": {"hashseed": spec["env"]["hashseed"], "gc": "default", "repo": repo, "skew": [0], "aslr_off": True},
-             "ops": [{k: v for k, v in spec["ops"][-1].items() if k not in ("fault", "reuse")}]}
-    o2 = launcher.launch(alone, pyc, 300)
+    alone = doc.get("ref_spec") or {
+        "mode": "sequential", "env": {"hashseed": spec["env"]["hashseed"], "gc": "default", "repo": repo, "skew": [0], "aslr_off": True},
+        "ops": [{k: v for k, v in spec["ops"][-1].items() if k not in ("fault", "reuse")}]}
+    alone["env"]["repo"] = repo
+    o2 = launcher.launch(alone, pyc, 900)
     if "error" in o2:
         return False, o2["error"]
-    differ = canon(last) != canon(o2["log"][0]) and not last.get("faulted")
-    return differ, f"after history: {canon(last)[1][:160]} | alone: {canon(o2['log'][0])[1][:160]}"
+    ref_rec = next((r for r in o2["log"] if r["id"] == spec["ops"][-1]["id"]), o2["log"][0])
+    differ = canon(last) != canon(ref_rec) and not last.get("faulted")
+    return differ, f"after history: {canon(last)[1][:160]} | pristine process: {canon(ref_rec)[1][:160]}"
 
 
 def replay(path: str) -> int:
@@ -444,7 +513,7 @@ def check(tier_name: str, seed: int, max_runs: int | None = None) -> int:
         pools = Pools(repo)
         targets = gen_targets(seed, tier, pools)
         tmap = {t["id"]: t for t in targets}
-        ref, errs = reference_phase(targets, tier, pyc, repo, workers)
+        ref, errs, spec_of = reference_phase(targets, tier, pyc, repo, workers)
         harness_errors += errs
         h0 = tier["ref_seeds"][0]
         candidates: list[dict] = []   # {"class", "sig", "doc"}
@@ -467,7 +536,7 @@ def check(tier_name: str, seed: int, max_runs: int | None = None) -> int:
                 h_a = hs[0]
                 h_b = next(h for h in hs if cs[h] != cs[h_a])
                 candidates.append({"class": "seed-dependent", "sig": {"class": "seed-dependent", "kind": t["kind"], "family": t.get("family")},
-                                   "doc": {"op": t, "hashseeds": [h_a, h_b]}, "detail": f"{t['kind']} {t.get('family')}: differs between PYTHONHASHSEED={h_a} and {h_b}"})
+                                   "doc": {"op": t, "hashseeds": [h_a, h_b], "ref_specs": [spec_of[(h_a, tid)], spec_of[(h_b, tid)]]}, "detail": f"{t['kind']} {t.get('family')}: differs between PYTHONHASHSEED={h_a} and {h_b}"})
             for h, r in recs.items():
                 for iv in internal_violations(t, r):
                     candidates.append({"class": iv["class"], "sig": {"class": iv["class"], "kind": t["kind"], "family": t.get("family")},
@@ -490,7 +559,8 @@ def check(tier_name: str, seed: int, max_runs: int | None = None) -> int:
                 harness_errors.append(f"fork-based and fresh-interpreter references disagree for target {tid} ({tmap[tid]['kind']} {tmap[tid].get('family')})")
 
         # ---- histories
-        runs = gen_runs(seed, tier, targets, repo)
+        failing = {tid for tid, rec in ref[h0].items() if rec.get("status") == "raised"}
+        runs = gen_runs(seed, tier, targets, repo, failing)
         for run in runs:  # resolve fault positions from the measured call counts
             for op in run["ops"]:
                 f = op.get("fault")
@@ -572,7 +642,8 @@ def check(tier_name: str, seed: int, max_runs: int | None = None) -> int:
             budget_left -= 1
             if "run" in c:
                 spec = minimise_history(c["run"], c["v"], ref, pyc, tier["min_budget"])
-                doc = {"spec": spec, "original_history_len": c["v"]["op_index"], "minimised_history_len": len(spec["ops"]) - 1}
+                doc = {"spec": spec, "original_history_len": c["v"]["op_index"], "minimised_history_len": len(spec["ops"]) - 1,
+                       "ref_spec": spec_of.get((h0, c["v"]["op_id"]))}
             else:
                 doc = c["doc"]
             doc.update({"property": PROP, "kit": common.KIT_VERSION, "seed": seed,
